@@ -997,7 +997,9 @@ class SP(Robot):
         #solres = sci.optimize.fmin(fkprime, self.getTopT().TAA, disp=True)
         init = self.getTopT().TAA
         found_sol = True
-        solres = sci.optimize.fsolve(fk, init)
+        #Forward-difference steps must stay above the 1e-6 cut-off below which tm() treats a
+        #rotation as none at all, or the orientation columns of the Jacobian come out as zero
+        solres = sci.optimize.fsolve(fk, init, epsfcn = 1e-8)
         sol = tm(solres)
         sol.angleMod()
         sol.TMtoTAA()
